@@ -319,7 +319,10 @@ def run(mod, tier, replay=None, procs=None):
             n_viol += 1
             if n_viol <= 20:
                 # confirm reproducibility in this (fresh) process before reporting
-                confirm = mod.evaluate(r["cfg"]).pack()
+                try:
+                    confirm = mod.evaluate(r["cfg"]).pack()
+                except Exception:
+                    confirm = {"violations": [{"name": "harness", "got": traceback.format_exc()[-500:]}]}
                 same = canon([(v["name"], v.get("got")) for v in confirm["violations"]]) == canon(
                     [(v["name"], v.get("got")) for v in r["violations"]])
                 path = _write_replay(pid, r, unknown, reproducible=same)
@@ -398,7 +401,7 @@ def run(mod, tier, replay=None, procs=None):
     with open(os.path.join(evdir, "%s.json" % pid), "w") as f:
         json.dump(ev, f, indent=1, default=_jdefault)
     print("%s tier=%s seed=%d states=%d transitions=%d validated=%d distinct_nontrivial=%d worst_margin=%.3g "
-          "violations=%d wall=%.1fs" % (pid, tier, sd, states, calls, validated, len(digests),
+          "violations=%d wall=%.1fs" % (pid, tier, sd, cov["states"], cov["transitions"], validated, len(digests),
                                         cov["worst_margin"], n_viol, wall))
     if harness_err and exit_code == 0:
         exit_code = 2
